@@ -38,7 +38,7 @@ def _is_priv(n):
 
 
 _ID_FIELDS = ((ast.Attribute, "attr"), (ast.Name, "id"), (ast.FunctionDef, "name"), (ast.AsyncFunctionDef, "name"),
-              (ast.ClassDef, "name"), (ast.arg, "arg"), (ast.keyword, "arg"))
+              (ast.ClassDef, "name"), (ast.arg, "arg"), (ast.keyword, "arg"), (ast.ExceptHandler, "name"))
 
 
 def _idents(node):
@@ -98,14 +98,39 @@ def _units(tree):
     return out
 
 
+def _locals_of(node):
+    """names bound locally in a function unit (parameters, assignment / loop / with / except / comprehension targets),
+    minus those declared global or nonlocal; empty for class and module bodies"""
+    if not isinstance(node, (ast.FunctionDef, ast.AsyncFunctionDef)):
+        return frozenset()
+    bound, outer = set(), set()
+    for n in ast.walk(node):
+        if isinstance(n, ast.arg):
+            bound.add(n.arg)
+        elif isinstance(n, ast.Name) and isinstance(n.ctx, (ast.Store, ast.Del)):
+            bound.add(n.id)
+        elif isinstance(n, ast.ExceptHandler) and n.name:
+            bound.add(n.name)
+        elif isinstance(n, (ast.Global, ast.Nonlocal)):
+            outer.update(n.names)
+        elif isinstance(n, (ast.FunctionDef, ast.AsyncFunctionDef)) and n is not node:
+            bound.add(n.name)
+    return frozenset(bound - outer - {"self", "cls"})
+
+
 class _Mask(ast.NodeTransformer):
-    def __init__(self, names):
+    def __init__(self, names, local=frozenset()):
         self.names = names
+        self.local = local
 
     def generic_visit(self, node):
         for cls, f in _ID_FIELDS:
             if isinstance(node, cls) and getattr(node, f) in self.names:
                 setattr(node, f, "§")
+            elif isinstance(node, cls) and cls in (ast.Name, ast.arg, ast.ExceptHandler) and getattr(node, f) in self.local:
+                setattr(node, f, "¤")      # a local variable: its name is immaterial
+        if isinstance(node, ast.keyword) and node.arg is not None:
+            pass                            # keyword names are part of a callee's interface: never masked as locals
         if isinstance(node, (ast.Global, ast.Nonlocal)):
             node.names = ["§" if n in self.names else n for n in node.names]
         if isinstance(node, (ast.FunctionDef, ast.AsyncFunctionDef, ast.ClassDef, ast.Module)):
@@ -115,19 +140,29 @@ class _Mask(ast.NodeTransformer):
 
 def _masked_dump(node, names):
     import copy
-    n = _Mask(names).visit(copy.deepcopy(node))
+    n = _Mask(names, _locals_of(node)).visit(copy.deepcopy(node))
     return ast.dump(n, annotate_fields=False, include_attributes=False)
 
 
 def _pairs(old, new, masked):
-    """identifier pairs of two structurally identical units (walk in parallel)"""
+    """identifier pairs of two structurally identical units (walk in parallel); local variables may be renamed, but
+    only bijectively (alpha-equivalence), otherwise the units are not aligned (None)"""
     import copy
+    lo, ln = _locals_of(old), _locals_of(new)
     a = _Mask(()).visit(copy.deepcopy(old))
     b = _Mask(()).visit(copy.deepcopy(new))
     pa, pb = _idents(a), _idents(b)
     if len(pa) != len(pb):
         return None
-    return [(x, y) for x, y in zip(pa, pb) if x != y or x in masked]
+    f, g, out = {}, {}, []
+    for x, y in zip(pa, pb):
+        if x in lo and y in ln and x not in masked and y not in masked:
+            if f.setdefault(x, y) != y or g.setdefault(y, x) != x:
+                return None
+            continue
+        if x != y or x in masked:
+            out.append((x, y))
+    return out
 
 
 def discover_file(old_src, new_src):
@@ -249,24 +284,110 @@ def compute(repo):
         return {}
     out = {}
     for rel in _py_files(repo):
+        # apply new->old in a file only where the old name VANISHED from that very file and the new one APPEARED in it
+        # (another class elsewhere may use either name for something of its own)
         try:
             src = texts.get(rel) or open(os.path.join(repo, rel), encoding="utf-8").read()
+            pinned_src = open(os.path.join(PINNED, rel), encoding="utf-8").read()
         except (OSError, UnicodeDecodeError):
             continue
-        names = _tokens_names(src)
-        m = {n: o for n, o in new_to_old.items() if n in names}
-        if not m:
+        if src == pinned_src:
             continue
-        captured = [o for o in m.values() if o in names]
-        if captured:
-            # the old name is in use in this file for something else: renaming would merge two names
-            report["dropped"] += ["%s: %s" % (rel, c) for c in captured]
-            m = {n: o for n, o in m.items() if o not in captured}
+        names, pnames = _tokens_names(src), _tokens_names(pinned_src)
+        m = {n: o for n, o in new_to_old.items() if n in names and n not in pnames and o in pnames and o not in names}
         if m:
             out[rel] = m
             for n, o in m.items():
                 report["renamed"].setdefault("%s -> %s" % (n, o), []).append(rel)
     return out
+
+
+def _harness_files(pid):
+    """harness/<pid>.py and the local harness modules it imports (transitively)"""
+    hdir = os.path.join(VERIF, "harness")
+    local = {}
+    for root, _, files in os.walk(hdir):
+        for fn in files:
+            if fn.endswith(".py"):
+                local[fn[:-3]] = os.path.join(root, fn)
+    todo, seen = [pid.lower()], set()
+    while todo:
+        m = todo.pop()
+        if m in seen or m not in local or m == "alpha":
+            continue
+        seen.add(m)
+        try:
+            txt = open(local[m], encoding="utf-8").read()
+        except OSError:
+            continue
+        for im in re.findall(r"^\s*(?:import|from)\s+([A-Za-z_][A-Za-z0-9_]*)", txt, re.M):
+            todo.append(im)
+        for im in re.findall(r"^\s*import\s+([A-Za-z_][A-Za-z0-9_, ]*)", txt, re.M):
+            todo.extend(x.strip().split(" ")[0] for x in im.split(","))
+    return [local[m] for m in sorted(seen)]
+
+
+def _code_uses(src):
+    """private names a harness file uses in CODE: `<expr>._name` attribute accesses and string literals that are exactly
+    a private name (getattr / poke / patch targets); comments, docstrings and message texts do not count"""
+    out = set()
+    try:
+        toks = list(tokenize.generate_tokens(io.StringIO(src).readline))
+    except (tokenize.TokenError, IndentationError):
+        return out
+    prev = None
+    for t in toks:
+        if t.type == tokenize.NAME and prev is not None and prev.type == tokenize.OP and prev.string == "." and _is_priv(t.string):
+            out.add(t.string)
+        elif t.type == tokenize.STRING:
+            try:
+                v = ast.literal_eval(t.string)
+            except (ValueError, SyntaxError):
+                v = None
+            if isinstance(v, str) and _is_priv(v):
+                out.add(v)
+        if t.type not in (tokenize.NL, tokenize.COMMENT, tokenize.NEWLINE, tokenize.INDENT, tokenize.DEDENT):
+            prev = t
+    return out
+
+
+def vanished_names(pid, repo):
+    """private names the harness of `pid` mentions which exist in the pinned source but (after the alpha-renaming)
+    nowhere in the tree under test: the harness cannot be tied to this tree through them"""
+    if not os.path.isdir(os.path.join(PINNED, "qmi")):
+        return []
+    used = set()
+    for f in _harness_files(pid):
+        used |= _code_uses(open(f, encoding="utf-8").read())
+    if not used:
+        return []
+    pinned, cur = set(), set()
+    for rel in _py_files(PINNED):
+        try:
+            o = open(os.path.join(PINNED, rel), encoding="utf-8").read()
+        except (OSError, UnicodeDecodeError):
+            continue
+        path = os.path.join(repo, rel)
+        try:
+            n = source_text(path) if os.path.isfile(path) else ""
+        except (OSError, UnicodeDecodeError):
+            n = ""
+        if o == n:
+            continue            # unchanged file: contributes the same names to both sides
+        pinned |= _tokens_names(o) & used
+        cur |= _tokens_names(n) & used
+    gone = pinned - cur
+    if not gone:
+        return []
+    # a name may have moved to a file that did not exist before, or still live in an unchanged file
+    for rel in _py_files(repo):
+        if not gone:
+            break
+        try:
+            gone -= _tokens_names(source_text(os.path.join(repo, rel)))
+        except (OSError, UnicodeDecodeError):
+            pass
+    return sorted(gone)
 
 
 class _Loader(importlib.machinery.SourceFileLoader):
